@@ -1158,7 +1158,7 @@ def desugar_modern_syntax(tree: ast.Module) -> int:
     return n_rw[0]
 
 
-def normalize_aliases(tree: ast.Module) -> int:
+def normalize_aliases(tree: ast.Module, _depth: int = 0) -> int:
     """In every function, a name bound exactly once to a *selector* (`ext = rule.rhs.ext`, `function = d['function']`) is replaced
     by the selector where it is read, provided the selected-from names are not rebound (for-loop targets excepted: they are
     rebound before the alias is taken).  The binding statement stays."""
@@ -1170,15 +1170,30 @@ def normalize_aliases(tree: ast.Module) -> int:
         if isinstance(e, ast.Attribute):
             return selector(e.value)
         if isinstance(e, ast.Subscript):
-            return selector(e.value) and isinstance(e.slice, ast.Constant)
+            # d['k'] or d[n] with n a plain name (checked below like the other names: not rebound after the alias is taken)
+            return selector(e.value) and isinstance(e.slice, (ast.Constant, ast.Name))
+        return False
+
+    MUTATORS = {'pop', 'clear', 'update', 'setdefault', 'popitem', 'insert', 'remove', 'sort', 'reverse', 'append', 'extend', '__setitem__', '__delitem__'}
+
+    def container_rewritten(fn: ast.AST, v: ast.AST) -> bool:
+        """For an alias of `base[name]`: is `base[...]` stored to, or `base` mutated by a method, anywhere in fn (nested functions included)?"""
+        for sub in [x for x in ast.walk(v) if isinstance(x, ast.Subscript) and isinstance(x.slice, ast.Name)]:
+            b = ast.dump(sub.value)
+            for x in ast.walk(fn):
+                if isinstance(x, ast.Subscript) and isinstance(x.ctx, (ast.Store, ast.Del)) and ast.dump(x.value).replace('Store()', 'Load()').replace('Del()', 'Load()') == b:
+                    return True
+                if isinstance(x, ast.Call) and isinstance(x.func, ast.Attribute) and x.func.attr in MUTATORS and ast.dump(x.func.value) == b:
+                    return True
         return False
     for fn in [x for x in ast.walk(tree) if isinstance(x, FUNC)]:
         stores: Dict[str, int] = {}
         loop_t: Dict[str, int] = {}
         binds: Dict[str, List[ast.AST]] = {}
         params = {a.arg for a in fn.args.posonlyargs + fn.args.args + fn.args.kwonlyargs} | ({fn.args.vararg.arg} if fn.args.vararg else set()) | ({fn.args.kwarg.arg} if fn.args.kwarg else set())
+        comp_targets = {id(t) for c in _own_walk(fn) if isinstance(c, ast.comprehension) for t in ast.walk(c.target)}   # a scope of their own
         for n in _own_walk(fn):
-            if isinstance(n, ast.Name) and isinstance(n.ctx, (ast.Store, ast.Del)):
+            if isinstance(n, ast.Name) and isinstance(n.ctx, (ast.Store, ast.Del)) and id(n) not in comp_targets:
                 stores[n.id] = stores.get(n.id, 0) + 1
             if isinstance(n, ast.For):
                 for t in ast.walk(n.target):
@@ -1194,22 +1209,51 @@ def normalize_aliases(tree: ast.Module) -> int:
             if not selector(v) or isinstance(v, ast.Name):
                 continue
             base = [x.id for x in ast.walk(v) if isinstance(x, ast.Name)]
-            if all((stores.get(b, 0) == 0) or (b not in params and stores.get(b, 0) == 1) or (stores.get(b, 0) == loop_t.get(b, 0)) for b in base) and not any(b in alias for b in base):
+            if all((stores.get(b, 0) == 0) or (b not in params and stores.get(b, 0) == 1) or (stores.get(b, 0) == loop_t.get(b, 0)) for b in base) and not any(b in alias for b in base) \
+                    and not container_rewritten(fn, v):
                 alias[k] = v
         # nested functions that rebind the alias name are left alone (free uses inside them are not touched at all)
         if not alias:
             continue
         bind_nodes = {id(bs[0].targets[0]) for bs in binds.values() if len(bs) == 1}
-        for n in list(_own_walk(fn)):
+        # a comprehension whose own variables shadow the alias or a name the selector reads: loads inside it are left alone
+        shadow: Dict[int, Set[str]] = {}
+        for c in [x for x in ast.walk(fn) if isinstance(x, (ast.ListComp, ast.SetComp, ast.DictComp, ast.GeneratorExp))]:
+            tn = {t.id for g_ in c.generators for t in ast.walk(g_.target) if isinstance(t, ast.Name)}
+            for x in ast.walk(c):
+                if isinstance(x, ast.Name):
+                    shadow.setdefault(id(x), set()).update(tn)
+        alias_reads = {k: {x.id for x in ast.walk(v) if isinstance(x, ast.Name)} | {k} for k, v in alias.items()}
+        # closures: a nested function that neither rebinds the alias nor any name the selector reads sees the same object
+        scope_nodes = list(_own_walk(fn))
+        for g in [x for x in ast.walk(fn) if isinstance(x, FUNC + (ast.Lambda,)) and x is not fn]:
+            bound_in_g = {a.arg for a in ast.walk(g.args) if isinstance(a, ast.arg)} | \
+                {x.id for x in ast.walk(g) if isinstance(x, ast.Name) and isinstance(x.ctx, (ast.Store, ast.Del))}
+            usable = {k for k, v in alias.items() if k not in bound_in_g and not ({x.id for x in ast.walk(v) if isinstance(x, ast.Name)} & bound_in_g)}
+            if usable and (isinstance(g, ast.Lambda) or True):
+                for n in ast.walk(g):
+                    if not any(isinstance(val, ast.Name) or isinstance(val, list) for _, val in ast.iter_fields(n)):
+                        continue
+                    for fld, val in ast.iter_fields(n):
+                        if isinstance(val, ast.Name) and isinstance(val.ctx, ast.Load) and val.id in usable and not (alias_reads[val.id] & shadow.get(id(val), set())):
+                            setattr(n, fld, ast.copy_location(copy.deepcopy(alias[val.id]), val)); n_sub += 1
+                        elif isinstance(val, list):
+                            for i, x in enumerate(val):
+                                if isinstance(x, ast.Name) and isinstance(x.ctx, ast.Load) and x.id in usable and not (alias_reads[x.id] & shadow.get(id(x), set())):
+                                    val[i] = ast.copy_location(copy.deepcopy(alias[x.id]), x); n_sub += 1
+        for n in scope_nodes:
             for fld, val in ast.iter_fields(n):
-                if isinstance(val, ast.Name) and isinstance(val.ctx, ast.Load) and val.id in alias:
+                if isinstance(val, ast.Name) and isinstance(val.ctx, ast.Load) and val.id in alias and not (alias_reads[val.id] & shadow.get(id(val), set())):
                     setattr(n, fld, ast.copy_location(copy.deepcopy(alias[val.id]), val)); n_sub += 1
                 elif isinstance(val, list):
                     for i, x in enumerate(val):
-                        if isinstance(x, ast.Name) and isinstance(x.ctx, ast.Load) and x.id in alias:
+                        if isinstance(x, ast.Name) and isinstance(x.ctx, ast.Load) and x.id in alias and not (alias_reads[x.id] & shadow.get(id(x), set())):
                             val[i] = ast.copy_location(copy.deepcopy(alias[x.id]), x); n_sub += 1
     if n_sub:
         ast.fix_missing_locations(tree)
+        if _depth < 3:
+            # an alias of an alias (`ps = table[n]; put = ps.append`): the first pass rewrote the second binding's right-hand side
+            n_sub += normalize_aliases(tree, _depth + 1)
     return n_sub
 
 
